@@ -199,6 +199,24 @@ int main(int argc, char** argv) {
     Problem p; p.nx = nx; p.d = d; p.nrho = nrho; p.nsc = nsc; for (int b = 0; b < 5; b++) p.sw[b] = 1; p.family = 0; p.kappa = 0.3; p.kappa2 = 0.0;
     layer2_run(p, modes[mi], 1.5, "closed-form", 1, via);
   }
+  // the solver is evolved, re-initialised with the same shape (and with another one), given a new state and evolved again
+  for (int mi : {2, 5, 7, 8}) for (int nx : {1, 3}) for (int d : {2, 3}) for (int reshape = 0; reshape < 2; reshape++) {
+    if ((size_t)mi >= modes.size()) continue;
+    if ((caseno++ % ar.nshards) != ar.shard) continue;
+    const Mode& m = modes[mi];
+    Problem p0; p0.nx = reshape ? nx + 1 : nx; p0.d = reshape ? (d == 2 ? 3 : 2) : d; p0.nrho = 1; p0.nsc = 1; for (int b = 0; b < 5; b++) p0.sw[b] = 1; p0.family = 0; p0.kappa = 0.3; p0.kappa2 = 0.0;
+    Problem p = p0; p.nx = nx; p.d = d;
+    Probe s(p0, 0.5); auto conf = [&](Probe& q) { q.Set_GSL_step(m.type); q.Set_AdaptiveStep(m.adaptive); if (m.adaptive) { q.Set_rel_error(1e-10); q.Set_abs_error(1e-10); q.Set_h(1e-4); } else { q.Set_NumSteps(2000); q.Set_rel_error(1e-2); q.Set_abs_error(1e-2); } };
+    conf(s); s.set_flat(probe_state(p0, 1));
+    count("evaluations"); count("reinitialised_solver_runs"); distinct(ref::fnv(m.name, strlen(m.name), nx * 100 + d * 10 + reshape + (m.adaptive ? 1000 : 0)));
+    std::string ctx = "{\"layer\":\"re-ini\",\"problem\":" + pjson(p) + ",\"stepper\":" + jstr(m.name) + ",\"adaptive\":" + (m.adaptive ? "true" : "false") + ",\"reshaped\":" + std::to_string(reshape) + "}";
+    set_case(ctx);
+    try { s.Evolve(0.4); s.P = p; s.ini(p.nx, p.d, p.nrho, p.nsc, 1.5); s.apply_switches(); conf(s); std::vector<double> y0 = probe_state(p, 0); s.set_flat(y0); s.Evolve(1.0);
+      std::vector<double> got = s.get_flat(), want = p.exact(y0, 1.5, 2.5); double scale = std::max(maxabs(y0), maxabs(want)), e = maxdiff(got, want), tol = m.tol * scale;
+      if (!(e <= tol) || !(std::fabs(s.Get_t() - 2.5) <= 4096 * ref::EPS * 2.5) || !s.views_coincide()) violation("Evolve:solution-mismatch:after-re-initialisation", "{\"case\":" + ctx + ",\"err\":" + jnum(e) + ",\"tol\":" + jnum(tol) + ",\"t\":" + jnum(s.Get_t()) + "}"); }
+    catch (const std::exception& ex) { violation(std::string("Evolve:throws:") + m.name + ":after-re-initialisation", "{\"case\":" + ctx + ",\"what\":" + jstr(ex.what()) + "}"); }
+    set_case("");
+  }
   // several consecutive Evolve calls over the same interval, every stepper mode, time-dependent terms
   for (auto& m : modes) for (int d : dims2) for (int sw : {1, 9, 27, 31}) for (int ncalls : {2, 3}) {
     if ((caseno++ % ar.nshards) != ar.shard) continue;
